@@ -4,13 +4,50 @@ From Coq Require Import ZArith Lia ZifyBool ZifyNat ZifyN.
 Ltac Zify.zify_post_hook ::= Z.div_mod_to_equations.
 Open Scope N_scope.
 
-(** the model's accumulator is the RFC word sum *)
-Lemma csum_partial_wsum l : csum_partial l = wsum l.
+(** the model's word sum is the RFC word sum; the accumulator is its end-around-carry reduction *)
+Lemma csum_words_wsum l : csum_words l = wsum l.
 Proof.
-  assert (H : forall n l, (length l <= n)%nat -> csum_partial l = wsum l).
-  { induction n as [|n IH]; intros [|a [|b r]] Hl; cbn [csum_partial wsum length] in *; try lia; try reflexivity. }
+  assert (H : forall n l, (length l <= n)%nat -> csum_words l = wsum l).
+  { induction n as [|n IH]; intros [|a [|b r]] Hl; cbn [csum_words wsum length] in *; try lia; try reflexivity. }
   apply (H (length l)). lia.
 Qed.
+
+Definition red (S : N) : N := oc_reduce 8 S.
+
+Lemma csum_partial_red l : csum_partial l = red (wsum l).
+Proof. unfold csum_partial, red. rewrite csum_words_wsum. reflexivity. Qed.
+
+Lemma oc_step_inv s : (s mod 65536 + s / 65536) mod 65535 = s mod 65535 /\ (s mod 65536 + s / 65536 = 0 <-> s = 0).
+Proof. split; lia. Qed.
+
+Lemma oc_reduce_inv fuel : forall s, oc_reduce fuel s mod 65535 = s mod 65535 /\ (oc_reduce fuel s = 0 <-> s = 0).
+Proof.
+  induction fuel as [|f IH]; intros s; cbn [oc_reduce]; [split; [reflexivity|tauto]|].
+  destruct (s <? 65536) eqn:E; [split; [reflexivity|tauto]|].
+  destruct (IH (s mod 65536 + s / 65536)) as (H1 & H2). destruct (oc_step_inv s) as (S1 & S2).
+  split; [congruence|tauto].
+Qed.
+
+Lemma oc_reduce_small fuel s : s < 65536 -> oc_reduce fuel s = s.
+Proof. intros H. destruct fuel; cbn [oc_reduce]; [reflexivity|]. destruct (s <? 65536) eqn:E; [reflexivity|lia]. Qed.
+
+Lemma red_bound S : S < 281474976710656 -> red S <= 65535.
+Proof.
+  intros H. unfold red.
+  cbn [oc_reduce]. destruct (S <? 65536) eqn:E0; [lia|].
+  set (s1 := S mod 65536 + S / 65536). assert (B1 : s1 < 4295032832) by (unfold s1; lia).
+  destruct (s1 <? 65536) eqn:E1; [lia|].
+  set (s2 := s1 mod 65536 + s1 / 65536). assert (B2 : s2 < 131073) by (unfold s2; lia).
+  destruct (s2 <? 65536) eqn:E2; [lia|].
+  set (s3 := s2 mod 65536 + s2 / 65536). assert (B3 : s3 < 65538) by (unfold s3; lia).
+  destruct (s3 <? 65536) eqn:E3; [lia|].
+  set (s4 := s3 mod 65536 + s3 / 65536). assert (B4 : s4 < 65536) by (unfold s4; lia).
+  destruct (s4 <? 65536) eqn:E4; lia.
+Qed.
+
+Lemma red_spec S : S < 281474976710656 ->
+  red S <= 65535 /\ red S mod 65535 = S mod 65535 /\ (red S = 0 <-> S = 0).
+Proof. intros H. split; [apply red_bound, H|]. apply oc_reduce_inv. Qed.
 
 Lemma wsum_app_even a b : Nat.even (length a) = true -> wsum (a ++ b) = wsum a + wsum b.
 Proof.
@@ -82,4 +119,43 @@ Proof.
   intros HS Hb Hl'.
   destruct (csum_fold_spec S) as (r & Hr & Hf & Hz & Hm); [lia|].
   apply verifies_of_sum; rewrite Hl', Hf; lia.
+Qed.
+
+Fixpoint sumN' (l : list N) : N := match l with [] => 0 | x :: r => x + sumN' r end.
+
+Lemma sum_red_mod parts : Forall (fun S => S < 281474976710656) parts ->
+  sumN' (map red parts) mod 65535 = sumN' parts mod 65535
+  /\ (sumN' (map red parts) = 0 <-> sumN' parts = 0)
+  /\ sumN' (map red parts) <= 65535 * N.of_nat (length parts).
+Proof.
+  induction parts as [|S r IH]; intros Hall; cbn [map sumN' length].
+  - repeat split; lia.
+  - inversion Hall as [|? ? HS Hr]; subst. destruct (IH Hr) as (I1 & I2 & I3).
+    destruct (red_spec S HS) as (R1 & R2 & R3).
+    split; [|split].
+    + rewrite N.add_mod by lia. rewrite R2, I1. rewrite <- N.add_mod by lia. reflexivity.
+    + lia.
+    + lia.
+Qed.
+
+(** the checksum the code stores -- fold of the sum of the reduced partial sums -- makes the whole
+    region verify, whatever the partition into parts *)
+Theorem csum_parts_verify parts l' :
+  Forall (fun S => S < 281474976710656) parts -> (length parts <= 16)%nat ->
+  let c := csum_fold (sumN' (map red parts)) in
+  wsum l' = sumN' parts + c -> wsum l' < 4294967296 ->
+  verifies l' = true /\ c < 65536.
+Proof.
+  intros Hall Hlen c Hl' Hb.
+  destruct (sum_red_mod parts Hall) as (M1 & M2 & M3).
+  set (R := sumN' (map red parts)) in *.
+  assert (HR : R < 4294901760) by lia.
+  destruct (csum_fold_spec R ltac:(lia)) as (r & Hr & Hf & Hz & Hm).
+  assert (Hc : c = 65535 - r) by exact Hf.
+  split; [|lia].
+  apply verifies_of_sum; [exact Hb| |].
+  - rewrite Hl', Hc. destruct (N.eq_dec (sumN' parts) 0) as [E|E]; [|lia].
+    assert (R = 0) by tauto. assert (r = 0) by tauto. lia.
+  - rewrite Hl', Hc.
+    rewrite N.add_mod by lia. rewrite <- M1. rewrite <- N.add_mod by lia. exact Hm.
 Qed.
